@@ -607,6 +607,9 @@ class Union(Structure, metaclass=UnionMetaType):
                     # Nested structures have to rebuild the union through the top-level union member they are part of
                     union_attr = attr or field._name
                     nested_value = getattr(value, field._name)
+                    if isinstance(nested_value, UnionProxy):
+                        # A nested union has already proxied its own members, take over from it
+                        nested_value = nested_value.__target__
                     proxy = UnionProxy(self, union_attr, nested_value)
                     object.__setattr__(value, field._name, proxy)
                     _proxy_structure(nested_value, union_attr)
